@@ -160,3 +160,96 @@ def run_codecopy(lo, hi, seed, res):
                                               code=code.hex(), src=hex(src), size=size, ext=ext, got=None if got is None else got.hex(), want=ret.hex(), error=p.error))
         if i % 25 == 0:
             res["samples"].append({"kind": "codecopy-program", "code": code.hex()[:200]})
+
+
+def run_repeat(lo, hi, seed, res):
+    """the same jump, attempted several times on the same code object: Contract objects are shared between paths, calls, transactions and
+    tests, so whatever a rejected (or accepted) jump leaves behind in them must not change the verdict on the next attempt.
+    (a) 0x1000 calls the jump program at 0x1001 three times and returns the three success flags and return words;
+    (b) the two arms of a symbolic JUMPI both make the same jump (two paths, each must end like the reference run)."""
+    import symrun
+
+    rng = random.Random(f"c19rep-{seed}-{lo}")
+    for i in range(lo, hi):
+        body = gen_body(rng)
+        hidden = [j for j, b in enumerate(body) if b == 0x5B]
+        # (a) repeated calls
+        head_len = 3 + 1
+        targets = sorted(set([head_len + j for j in hidden] + [head_len + rng.randrange(len(body) + 2) for _ in range(3)]))
+        if len(targets) > 8:
+            targets = sorted(rng.sample(targets, 8))
+        outer = []
+        for k in range(3):
+            outer += [32, 96 + 32 * k, 0, 0, 0, ("push", 0x1001, 20), 0xFFFF, "CALL", 32 * k, "MSTORE"]
+        outer += [192, 0, "RETURN"]
+        outer_code = asm(outer)
+        for t in targets:
+            inner = asm([("push", t, 2), "JUMP"]) + body
+            res["counters"]["repeat_programs"] += 1
+            res["counters"]["evaluations"] += 1
+            W = refevm.World()
+            W.get(0x1000).code = outer_code
+            W.get(0x1001).code = inner
+            ev = refevm.EVM(W, origin=0x2000, step_budget=20000)
+            try:
+                ok, ret, kind = ev.call(0x1000, 0x2000, 0, b"", transfer=False)
+            except (refevm.StepBudget, refevm.Unsupported):
+                res["counters"]["jump_ref_skipped"] += 1
+                continue
+            if b"\xfe" in inner or not ok:
+                # an undefined/INVALID byte may stop halmos' path (reported); keep to programs whose inner runs end in a defined way
+                pass
+            r = symrun.run_symbolic({0x1000: outer_code, 0x1001: inner}, ncd=0, concrete=dict(cd=[], caller=0x2000, origin=0x2000, value=0))
+            if r.crash:
+                res["violations"].append(dict(what="repeated jump program: crash", key="repeat-crash", code=inner.hex(), target=t, crash=r.crash))
+                continue
+            if len(r.paths) != 1 or r.paths[0].stuck:
+                res["counters"]["repeat_stuck_or_forked"] += 1
+                continue
+            p = r.paths[0]
+            got = p.out if isinstance(p.out, bytes) else None
+            flags = [int.from_bytes(ret[32 * k : 32 * k + 32], "big") for k in range(3)]
+            res["counters"]["repeat_calls_rejected" if flags[0] == 0 else "repeat_calls_succeeded"] += 1
+            if p.error is not None or got != ret:
+                res["violations"].append(dict(what="the same call repeated on the same code object ends differently from the EVM (state left behind in the shared Contract)",
+                                              key="repeat-call", code=inner.hex(), target=t, got=None if got is None else got.hex(), want=ret.hex(), error=p.error))
+        # (b) both arms of a symbolic branch make the same jump
+        head2 = asm([4, "CALLDATALOAD", "@arm", "JUMPI", ("push", 0, 2), "JUMP", ":arm", ("push", 0, 2), "JUMP"])
+        h2 = len(head2)
+        targets = sorted(set([h2 + j for j in hidden] + [h2 + rng.randrange(len(body) + 1)]))
+        if len(targets) > 6:
+            targets = sorted(rng.sample(targets, 6))
+        for t in targets:
+            code = asm([4, "CALLDATALOAD", "@arm", "JUMPI", ("push", t, 2), "JUMP", ":arm", ("push", t, 2), "JUMP"]) + body
+            assert len(code) == h2 + len(body)
+            res["counters"]["repeat_programs"] += 1
+            res["counters"]["evaluations"] += 1
+            wants = []
+            try:
+                for cdv in (0, 1):
+                    W = refevm.World()
+                    W.get(0x1000).code = code
+                    ev = refevm.EVM(W, origin=0x2000, step_budget=5000)
+                    ok, ret, kind = ev.call(0x1000, 0x2000, 0, bytes(4) + cdv.to_bytes(32, "big"), transfer=False)
+                    wants.append(("ok", ret) if ok else (("revert", ret) if kind == "revert" else ("halt", b"")))
+            except (refevm.StepBudget, refevm.Unsupported):
+                res["counters"]["jump_ref_skipped"] += 1
+                continue
+            if wants[0] != wants[1]:
+                continue
+            r = symrun.run_symbolic({0x1000: code}, ncd=1)
+            if r.crash:
+                res["violations"].append(dict(what="repeated jump program: crash", key="repeat-crash", code=code.hex(), target=t, crash=r.crash))
+                continue
+            if len(r.paths) != 2 or any(p.stuck for p in r.paths):
+                res["counters"]["repeat_stuck_or_forked"] += 1
+                continue
+            res["counters"]["repeat_two_arm_runs"] += 1
+            for p in r.paths:
+                out = p.out if isinstance(p.out, bytes) else (b"" if p.out is None else None)
+                gk = "ok" if p.error is None else ("revert" if p.error == "Revert" else "halt")
+                got = (gk, out if gk in ("ok", "revert") else b"")
+                if got != wants[0]:
+                    res["violations"].append(dict(what="two paths making the same jump end differently (state left behind in the shared Contract)", key="repeat-arms",
+                                                  code=code.hex(), target=t, got=[got[0], None if got[1] is None else got[1].hex()], want=[wants[0][0], wants[0][1].hex()]))
+                    break
